@@ -3,11 +3,15 @@
 package yae
 
 import (
+	"time"
+
 	"github.com/goghcrow/yae/types"
 	"github.com/goghcrow/yae/val"
 	"github.com/goghcrow/yae/zzverif/hx"
 	"github.com/goghcrow/yae/zzverif/sv"
 )
+
+var c16T0 = time.Unix(1700000000, 0)
 
 type c16Rec struct {
 	Score *float64 `yae:"score"`
@@ -15,6 +19,8 @@ type c16Rec struct {
 }
 
 type c16Env struct {
+	When *time.Time       `yae:"when,maybe"`
+	T0   time.Time        `yae:"t0"`
 	R c16Rec            `yae:"r"`
 	M map[string]c16Rec `yae:"m"`
 	N float64           `yae:"n"`
@@ -40,13 +46,24 @@ func H16_host() {
 		}
 		return &x
 	}
-	mk := func(name string) (c16Env, [4]bool) {
-		// which pointers are set: all, all but r.bonus, all but m["b"].score, none
-		p := [][4]bool{{true, true, true, true}, {true, false, true, true}, {true, true, false, true}, {false, false, false, false}}[sv.Choice(name+".present", 4)]
-		e := c16Env{N: 1}
+	// which pointers are set: 0 all; 1 all but r.bonus; 2 all but m["b"].score
+	// (the map's entries then convert to different types: inconsistent data,
+	// used for invocations only); 3 none
+	mk := func(name string, patterns int) (c16Env, [4]bool) {
+		k := sv.Choice(name+".present", patterns)
+		if patterns == 3 && k == 2 {
+			k = 3
+		}
+		p := [][4]bool{{true, true, true, true}, {true, false, true, true}, {true, true, false, true}, {false, false, false, false}}[k]
+		e := c16Env{N: 1, T0: c16T0}
+		if p[1] {
+			t := c16T0.Add(time.Hour)
+			e.When = &t
+		}
 		e.R = c16Rec{f(name+".r.score", p[0]), f(name+".r.bonus", p[1])}
+		aPresent := k != 3
 		e.M = map[string]c16Rec{
-			"a": {f(name+".a.score", true), f(name+".a.bonus", true)},
+			"a": {f(name+".a.score", aPresent), f(name+".a.bonus", aPresent)},
 			"b": {f(name+".b.score", p[2]), f(name+".b.bonus", p[3])},
 		}
 		return e, p
@@ -54,6 +71,7 @@ func H16_host() {
 	type prog struct {
 		src   string
 		needs []int // indices of parts whose payload the program consumes without a default
+		opts  []int // indices of (untagged pointer) parts the program reads through get(part, default): an optional only while absent
 		want  func(e c16Env) float64
 	}
 	d := func(p *float64, def float64) float64 {
@@ -63,25 +81,48 @@ func H16_host() {
 		return *p
 	}
 	progs := []prog{
-		{"r.score + r.bonus", []int{0, 1}, func(e c16Env) float64 { return *e.R.Score + *e.R.Bonus }},
-		{"get(r.score, 0) + get(r.bonus, 10)", nil, func(e c16Env) float64 { return d(e.R.Score, 0) + d(e.R.Bonus, 10) }},
-		{"m[\"b\"].score + n", []int{2}, func(e c16Env) float64 { return *e.M["b"].Score + 1 }},
-		{"get(m[\"b\"].bonus, 5) + n", nil, func(e c16Env) float64 { return d(e.M["b"].Bonus, 5) + 1 }},
-		{"r.score * 2", []int{0}, func(e c16Env) float64 { return *e.R.Score * 2 }},
+		{"r.score + r.bonus", []int{0, 1}, nil, func(e c16Env) float64 { return *e.R.Score + *e.R.Bonus }},
+		{"get(r.score, 0) + get(r.bonus, 10)", nil, []int{0, 1}, func(e c16Env) float64 { return d(e.R.Score, 0) + d(e.R.Bonus, 10) }},
+		{"m[\"b\"].score + n", []int{2}, nil, func(e c16Env) float64 { return *e.M["b"].Score + 1 }},
+		{"get(m[\"b\"].bonus, 5) + n", nil, []int{3}, func(e c16Env) float64 { return d(e.M["b"].Bonus, 5) + 1 }},
+		{"r.score * 2", []int{0}, nil, func(e c16Env) float64 { return *e.R.Score * 2 }},
+		// an optional instant: absent in the sample and later present, or the other way round, it is a maybe[time] throughout
+		{"if(get(when, t0) == t0, n, n + 1)", nil, nil, func(e c16Env) float64 {
+			if e.When == nil || e.When.Equal(c16T0) {
+				return 1
+			}
+			return 2
+		}},
 	}
 	p := progs[sv.Choice("prog", len(progs))]
 	ex := exprWith(sv.Choice("backend", hx.NBackends))
-	sample, _ := mk("sample")
+	sample, samplePresent := mk("sample", 3)
 	var c Callable
 	var err error
 	cls := sv.Outcome(func() { c, err = ex.Compile(p.src, sample) })
 	sv.Assert("compile-does-not-panic", cls == "ok")
+	// against a sample, a program compiles exactly when every part it feeds
+	// to an operator is present there (a plain num) and every untagged pointer
+	// it reads through get(part, default) is absent there (an optional); a
+	// field declared optional is an optional either way
+	compiles := true
+	for _, i := range p.needs {
+		if !samplePresent[i] {
+			compiles = false
+		}
+	}
+	for _, i := range p.opts {
+		if samplePresent[i] {
+			compiles = false
+		}
+	}
+	sv.Assert("accepted-iff-no-absent-payload-is-consumed-without-a-default", cls != "ok" || (err == nil) == compiles)
 	if cls != "ok" || err != nil {
 		sv.Reach("rejected-at-compile-time")
 		return
 	}
 	for k := 0; k < 2; k++ {
-		env, present := mk("env" + hx.Itoa(k))
+		env, present := mk("env"+hx.Itoa(k), 4)
 		var r *val.Val
 		cls := sv.Outcome(func() { r, err = c(env) })
 		sv.Assert("callable-does-not-panic", cls == "ok")
